@@ -11,7 +11,8 @@ REQUIRED = ["Ellipsoid.__init__", "Ellipsoid.b", "Ellipsoid.e", "Earth.__init__"
 THEOREMS = ["C18_builtin", "C18_earth_object", "C18_set_ellipsoid", "C18_on_ellipse", "C18_height", "C18_parallel_radius",
             "C18_linear_velocity", "C18_rm_equator", "C18_rm_pole", "C18_rm_monotone",
             "C18_distance_symmetric", "C18_distance_symmetric_angle", "C18_distance_coincident",
-            "C18_distance_equator", "C18_distance_value"]
+            "C18_distance_equator", "C18_distance_value", "C18_parallax_correction_closed_form",
+            "C18_parallax_declination_bound"]
 PROOF_TIMEOUT = {"quick": 1500, "thorough": 3000}
 EXHAUSTIVE = False
 MANIFEST = {
@@ -51,14 +52,19 @@ CLAUSES = {
     "distance = Andoyer's formula of the spec for every float input": "proved [ideal, C18_distance_value]",
     "distance along a meridian = integral of rm (1e-4)": "unproved (searched): needs a quantitative error analysis of Andoyer's first-order formula; Simpson integration of the implementation's rm, built-in ellipsoids 1e-4, user ellipsoids max(1e-4, 3 f^2)",
     "distance within 0.6 % of the great-circle distance": "unproved (searched): trigonometric bound -2f..f on Andoyer's correction not formalised; searched against the sphere of mean radius (2a+b)/3 for the built-in ellipsoids incl. antipodal pairs",
-    "parallax corrections tend to 0 and stay below the horizontal parallax": "unproved (searched): both functions are compared with an independent vector computation (1e-9 rad) and with the bound asin(rho sin 8.794''/Delta), rho = geocentric distance of the observer (1 at sea level on the equator)",
+    "parallax_correction closed form (after repairs 5494b49/2d034b9): delta_alpha = atan2(B, A), dec' = atan2(sin d - rho_sin k, hypot(A, B)), WGS84 observer":
+        "proved [ideal, C18_parallax_correction_closed_form; the final right_ascension + delta_alpha is left as the model's Angle.__add__]",
+    "parallax correction in declination tends to 0 as distance grows: |sin dec' - sin dec| <= 2q/(1-q), q = rho sin(8.794'')/distance":
+        "proved [ideal/spec, C18_parallax_declination_bound, every declination and hour angle, poles included]",
+    "parallax corrections stay below the horizontal parallax asin(rho sin 8.794''/distance); parallax_ecliptical; right-ascension correction":
+        "unproved (searched): both functions are compared with an independent vector computation (1e-9 rad) and with the bound asin(rho sin 8.794''/Delta), rho = geocentric distance of the observer (1 at sea level on the equator)",
     "binary64 rounding of all of the above": "unproved (searched); correspondence stage ties binary64 runs to the model text bit for bit",
 }
 
 
 def proof_files(tier):
     return ["C18_tac.v", "C18_spec.v", "C18_defs.v", "C18_bridge.v", "C18_rp.v", "C18_lv.v", "C18_rm.v",
-            "C18_dist_f.v", "C18_dist_a.v", "C18_dist.v", "C18_main.v", "C18.v"]
+            "C18_dist_f.v", "C18_dist_a.v", "C18_dist.v", "C18_main.v", "C18_par.v", "C18_parbound.v", "C18.v"]
 
 
 # ----------------------------------------------------------------------------- generators
